@@ -1,7 +1,11 @@
 package main
 
 import (
+	"fmt"
 	"go/token"
+	"go/types"
+	"sort"
+	"strings"
 
 	"golang.org/x/tools/go/ssa"
 )
@@ -78,6 +82,9 @@ func (a *ioAnalysis) untestedPath(e ssa.Value, call ssa.Instruction) string {
 			switch x := ins.(type) {
 			case *ssa.Return:
 				if ei < 0 {
+					if yieldReturnsError(b) {
+						return ""
+					}
 					return "return without error result at " + a.c.pos(x.Pos())
 				}
 				for _, v := range retValues(x, ei) {
@@ -133,4 +140,698 @@ func (a *ioAnalysis) untestedPath(e ssa.Value, call ssa.Instruction) string {
 		return ""
 	}
 	return walk(call.Block(), idx+1)
+}
+
+// constChoices: the integer constants v can be: a constant, or a choice (φ) between such values,
+// possibly through a conversion (φ cycles of a loop contribute nothing of their own).  ok is false
+// when v can be anything else.
+func constChoices(v ssa.Value, depth int) ([]int64, bool) {
+	return constChoicesSeen(v, map[ssa.Value]bool{})
+}
+
+func constChoicesSeen(v ssa.Value, seen map[ssa.Value]bool) ([]int64, bool) {
+	if seen[v] {
+		return nil, true
+	}
+	seen[v] = true
+	switch x := v.(type) {
+	case *ssa.Const:
+		k, ok := constInt(x)
+		if !ok {
+			return nil, false
+		}
+		return []int64{k}, true
+	case *ssa.Phi:
+		var out []int64
+		for _, e := range x.Edges {
+			ks, ok := constChoicesSeen(e, seen)
+			if !ok {
+				return nil, false
+			}
+			out = append(out, ks...)
+		}
+		return out, true
+	case *ssa.Convert:
+		return constChoicesSeen(x.X, seen)
+	case *ssa.ChangeType:
+		return constChoicesSeen(x.X, seen)
+	}
+	return nil, false
+}
+
+// yieldReturnsError: block b of a range-over-func loop body (go/ssa compiles the body of `for … :=
+// range seq` into a synthetic yield function) is the lowering of `return …, err` in the enclosing
+// function: it stores a value into the enclosing function's error result cell, records a positive
+// exit code in the loop's jump cell and makes yield return false; the enclosing function, on finding
+// that exit code after the iterator call, returns the contents of the result cell.  Both halves are
+// checked on the SSA form, so an assignment to a named result followed by `break` or `continue` is
+// not taken for a return.
+func yieldReturnsError(b *ssa.BasicBlock) bool {
+	fn := b.Parent()
+	parent := fn.Parent()
+	if parent == nil || fn.Synthetic != "range-over-func yield" || len(b.Instrs) == 0 {
+		return false
+	}
+	ret, ok := b.Instrs[len(b.Instrs)-1].(*ssa.Return)
+	if !ok || len(ret.Results) != 1 {
+		return false
+	}
+	if more, isC := constBool(ret.Results[0]); !isC || more {
+		return false
+	}
+	pei := errIndex(parent.Signature)
+	if pei < 0 {
+		return false
+	}
+	fvIndex := func(v ssa.Value) int {
+		fv, ok := v.(*ssa.FreeVar)
+		if !ok {
+			return -1
+		}
+		for i, x := range fn.FreeVars {
+			if x == fv {
+				return i
+			}
+		}
+		return -1
+	}
+	resIdx, jumpIdx := -1, -1
+	var code int64
+	for _, ins := range b.Instrs {
+		st, ok := ins.(*ssa.Store)
+		if !ok {
+			continue
+		}
+		i := fvIndex(st.Addr)
+		if i < 0 {
+			continue
+		}
+		if p, ok := st.Addr.Type().Underlying().(*types.Pointer); ok && isErrorType(p.Elem()) && !isNilConst(st.Val) {
+			resIdx = i
+		} else if k, isC := constInt(st.Val); isC && k > 0 {
+			jumpIdx, code = i, k
+		}
+	}
+	if resIdx < 0 || jumpIdx < 0 {
+		return false
+	}
+	// the enclosing function: the cells bound to the two free variables
+	var resCell, jumpCell ssa.Value
+	eachInstr(parent, func(ins ssa.Instruction) {
+		if mc, ok := ins.(*ssa.MakeClosure); ok && mc.Fn == fn && resIdx < len(mc.Bindings) && jumpIdx < len(mc.Bindings) {
+			resCell, jumpCell = mc.Bindings[resIdx], mc.Bindings[jumpIdx]
+		}
+	})
+	if resCell == nil || jumpCell == nil {
+		return false
+	}
+	found := false
+	for _, pb := range parent.Blocks {
+		ifi, ok := pb.Instrs[len(pb.Instrs)-1].(*ssa.If)
+		if !ok {
+			continue
+		}
+		m, ok := asCmp(cond{ifi.Cond, true, pb})
+		if !ok || m.op != token.EQL {
+			continue
+		}
+		ld, ok := m.x.(*ssa.UnOp)
+		if k, isC := constInt(m.y); !ok || !isC || k != code || ld.Op != token.MUL || ld.X != jumpCell {
+			continue
+		}
+		tb := pb.Succs[0]
+		if r, ok := tb.Instrs[len(tb.Instrs)-1].(*ssa.Return); ok && pei < len(r.Results) {
+			if rl, ok := r.Results[pei].(*ssa.UnOp); ok && rl.Op == token.MUL && rl.X == resCell {
+				found = true
+			}
+		}
+	}
+	return found
+}
+
+// ---- look-ahead results are as long as the input allows, not as long as asked for --------------
+
+// isScannerLookAhead: a method of the scanner with the shape (n int) []byte — the look-ahead, which
+// hands back fewer bytes than asked for when the input ends or the reader fails first.
+func isScannerLookAhead(g *ssa.Function, scannerT *types.TypeName) bool {
+	if g == nil || g.Signature.Recv() == nil || !pointsTo(g.Signature.Recv().Type(), scannerT) {
+		return false
+	}
+	res, par := g.Signature.Results(), g.Signature.Params()
+	if res.Len() != 1 || par.Len() != 1 || res.At(0).Type().String() != "[]byte" {
+		return false
+	}
+	b, ok := par.At(0).Type().Underlying().(*types.Basic)
+	return ok && b.Info()&types.IsInteger != 0
+}
+
+// isLenOf: v is len(x) with x resolving to target.
+func isLenOf(v ssa.Value, target ssa.Value) bool {
+	call, ok := origin(v).(*ssa.Call)
+	if !ok {
+		return false
+	}
+	b, ok := call.Common().Value.(*ssa.Builtin)
+	return ok && b.Name() == "len" && len(call.Common().Args) == 1 && origin(call.Common().Args[0]) == target
+}
+
+// indexWithin: on entry to block b it is known that index value i is a valid index of slice v
+// (bound = 0) or a valid upper slice bound (bound = 1): for a constant from a dominating constant
+// lower bound on len(v), otherwise from a dominating comparison of i with len(v).
+func indexWithin(b *ssa.BasicBlock, v ssa.Value, i ssa.Value, bound int64) bool {
+	conds := domConds(b)
+	isLen := func(x ssa.Value) bool { return isLenOf(x, v) }
+	if k, isC := constInt(i); isC {
+		if k < 0 {
+			return false
+		}
+		lb, ok := lowerBoundConst(conds, isLen)
+		return ok && lb >= k+1-bound || k == 0 && bound == 1
+	}
+	for _, cd := range conds {
+		m, ok := asCmp(cd)
+		if !ok {
+			continue
+		}
+		x, y, op := m.x, m.y, m.op
+		if isLen(x) {
+			x, y, op = y, x, swapOp(op)
+		}
+		if origin(x) != origin(i) || !isLen(y) {
+			continue
+		}
+		if op == token.LSS || bound == 1 && (op == token.LEQ || op == token.EQL) {
+			return true
+		}
+	}
+	return false
+}
+
+// shortPeekRule: a fault or the end of a cut-off input directly behind the current position makes the
+// scanner's look-ahead return fewer bytes than were asked for.  Every element access and every
+// re-slicing of a look-ahead result must therefore be covered by a test of its length (comparing
+// the whole result with a string, ranging over it and taking its length are always fine);
+// otherwise the fault surfaces as an index-out-of-range panic instead of an error.
+func (c *Ctx) shortPeekRule(rule string, scannerT *types.TypeName) {
+	for _, f := range c.modFuncs {
+		fname := c.fname(f)
+		eachInstr(f, func(ins ssa.Instruction) {
+			call, ok := ins.(*ssa.Call)
+			if !ok || !isScannerLookAhead(call.Common().StaticCallee(), scannerT) {
+				return
+			}
+			// the result and the values it flows into unchanged (local cells, φ)
+			vals := map[ssa.Value]bool{call: true}
+			for changed := true; changed; {
+				changed = false
+				eachInstr(f, func(i2 ssa.Instruction) {
+					v, ok := i2.(ssa.Value)
+					if !ok || vals[v] {
+						return
+					}
+					if o := origin(v); o != v && vals[o] {
+						vals[v], changed = true, true
+						return
+					}
+					if phi, ok := i2.(*ssa.Phi); ok {
+						for _, e := range phi.Edges {
+							if vals[e] {
+								vals[v], changed = true, true
+							}
+						}
+					}
+				})
+			}
+			bad := ""
+			n := 0
+			eachInstr(f, func(i2 ssa.Instruction) {
+				if bad != "" {
+					return
+				}
+				switch x := i2.(type) {
+				case *ssa.IndexAddr:
+					if vals[x.X] {
+						n++
+						if !indexWithin(x.Block(), origin(x.X), x.Index, 0) {
+							bad = "element " + c.valShape(x.Index) + " is accessed at " + c.pos(x.Pos())
+						}
+					}
+				case *ssa.Index:
+					if vals[x.X] {
+						n++
+						if !indexWithin(x.Block(), origin(x.X), x.Index, 0) {
+							bad = "element " + c.valShape(x.Index) + " is accessed at " + c.pos(x.Pos())
+						}
+					}
+				case *ssa.Slice:
+					if vals[x.X] {
+						for _, bd := range []ssa.Value{x.Low, x.High, x.Max} {
+							if bd == nil {
+								continue
+							}
+							n++
+							if !indexWithin(x.Block(), origin(x.X), bd, 1) {
+								bad = "it is re-sliced with bound " + c.valShape(bd) + " at " + c.pos(x.Pos())
+							}
+						}
+					}
+				}
+			})
+			c.check(bad == "", rule, fname, "look-ahead result accessed only within its length", call.Pos(), fmt.Sprintf("%d element accesses / re-slicings, all covered by a length test", n),
+				"the scanner's look-ahead returns fewer bytes than asked for when the input ends or the reader fails first, but "+bad+" without a test of its length: a read fault or a cut-off file at that offset causes an index-out-of-range panic instead of an error")
+		})
+	}
+}
+
+// ---- a reader that is asked only once must deliver everything it can ---------------------------
+
+// isReadShaped: an implementation of io.Reader's method: Read(p []byte) (int, error).
+func isReadShaped(g *ssa.Function) bool {
+	if g == nil || g.Signature.Recv() == nil || g.Name() != "Read" {
+		return false
+	}
+	res, par := g.Signature.Results(), g.Signature.Params()
+	if res.Len() != 2 || par.Len() != 1 || par.At(0).Type().String() != "[]byte" || !isErrorType(res.At(1).Type()) {
+		return false
+	}
+	b, ok := res.At(0).Type().Underlying().(*types.Basic)
+	return ok && b.Kind() == types.Int
+}
+
+// fillsBuffer: whenever g (Read-shaped) returns without a definitely non-nil error, the count it
+// returns is the length of the buffer it was given.  Returns a description of a return that may
+// deliver less, or "".
+func (c *Ctx) fillsBuffer(g *ssa.Function, seen map[*ssa.Function]bool) string {
+	if seen[g] {
+		return ""
+	}
+	seen[g] = true
+	if len(g.Blocks) == 0 || len(g.Params) < 2 {
+		return "the body of " + c.fname(g) + " is not available"
+	}
+	buf := ssa.Value(g.Params[len(g.Params)-1])
+	for _, r := range returns(g) {
+		if len(r.Results) != 2 {
+			continue
+		}
+		type pair struct {
+			n, e ssa.Value
+			ctx  []cond
+		}
+		var pairs []pair
+		pn, _ := r.Results[0].(*ssa.Phi)
+		pe, _ := r.Results[1].(*ssa.Phi)
+		if pn != nil && pn.Block() != r.Block() {
+			pn = nil
+		}
+		if pe != nil && pe.Block() != r.Block() {
+			pe = nil
+		}
+		if pn == nil && pe == nil {
+			pairs = append(pairs, pair{r.Results[0], r.Results[1], domConds(r.Block())})
+		} else {
+			for i, pred := range r.Block().Preds {
+				p := pair{r.Results[0], r.Results[1], edgeConds(pred, r.Block())}
+				if pn != nil {
+					p.n = pn.Edges[i]
+				}
+				if pe != nil {
+					p.e = pe.Edges[i]
+				}
+				pairs = append(pairs, p)
+			}
+		}
+		for _, p := range pairs {
+			// both results of one call that itself fills the buffer: io.ReadFull on it, or a module reader
+			if en, ok := p.n.(*ssa.Extract); ok {
+				if ee, ok := p.e.(*ssa.Extract); ok && ee.Tuple == en.Tuple {
+					if inner, ok := en.Tuple.(*ssa.Call); ok {
+						if h := inner.Common().StaticCallee(); h != nil {
+							args := inner.Common().Args
+							if calleeName(h) == "io.ReadFull" && len(args) == 2 && origin(args[1]) == buf {
+								continue
+							}
+							if isReadShaped(h) && c.inModule(h) && len(args) == 2 && origin(args[1]) == buf {
+								if w := c.fillsBuffer(h, seen); w == "" {
+									continue
+								}
+							}
+						}
+					}
+				}
+			}
+			// the error is known to be present
+			nonNil := false
+			switch x := origin(p.e).(type) {
+			case *ssa.MakeInterface:
+				nonNil = true
+			case *ssa.UnOp:
+				nonNil = globalLoad(x) != nil && isEOFGlobal(x)
+			}
+			for _, cd := range p.ctx {
+				if m, ok := asCmp(cd); ok && m.op == token.NEQ && (m.x == p.e && isNilConst(m.y) || m.y == p.e && isNilConst(m.x)) {
+					nonNil = true
+				}
+			}
+			if nonNil {
+				continue
+			}
+			// otherwise the count must be len(p)
+			full := isLenOf(p.n, buf)
+			for _, cd := range p.ctx {
+				m, ok := asCmp(cd)
+				if !ok {
+					continue
+				}
+				x, y, op := m.x, m.y, m.op
+				if isLenOf(x, buf) {
+					x, y, op = y, x, swapOp(op)
+				}
+				if origin(x) == origin(p.n) && isLenOf(y, buf) && (op == token.GEQ || op == token.EQL) {
+					full = true
+				}
+			}
+			if !full {
+				return c.fname(g) + " can return the count " + c.valShape(p.n) + " together with a nil error at " + c.pos(r.Pos())
+			}
+		}
+	}
+	return ""
+}
+
+// fullReadRule: module code that calls a module reader's Read directly, once (not in a loop that asks
+// again, not through io.ReadFull) takes what it gets for everything there is: a count below the
+// buffer length then means end of data to it.  Such a reader must fill the buffer whenever it
+// reports no error; a Read that hands out only what happens to be buffered makes the result depend
+// on where the chunks delivered by the underlying reader end.
+func (c *Ctx) fullReadRule(rule string) {
+	for _, f := range c.modFuncs {
+		fname := c.fname(f)
+		eachInstr(f, func(ins ssa.Instruction) {
+			call, ok := ins.(*ssa.Call)
+			if !ok {
+				return
+			}
+			g := call.Common().StaticCallee()
+			if g != nil && calleeName(g) == "io.ReadFull" && len(call.Common().Args) == 2 {
+				if mi, ok := call.Common().Args[0].(*ssa.MakeInterface); ok {
+					t := mi.X.Type()
+					if pt, ok := t.Underlying().(*types.Pointer); ok {
+						t = pt.Elem()
+					}
+					if n, ok := t.(*types.Named); ok && n.Obj().Pkg() != nil && (n.Obj().Pkg().Path() == modPath || strings.HasPrefix(n.Obj().Pkg().Path(), modPath+"/")) {
+						c.ok(rule, fname, "module reader read through io.ReadFull", call.Pos(), "io.ReadFull asks again until the buffer is full", "")
+					}
+				}
+				return
+			}
+			if !isReadShaped(g) || !c.inModule(g) || g == f {
+				return
+			}
+			construct := "single call of " + c.fname(g)
+			for _, r := range *call.Referrers() {
+				if _, ok := r.(*ssa.Return); ok {
+					c.ok(rule, fname, construct, call.Pos(), "result passed on unchanged: the caller's caller decides", "")
+					return
+				}
+			}
+			if loopBlocks(call.Block())[call.Block()] {
+				c.ok(rule, fname, construct, call.Pos(), "the read is issued in a loop", "")
+				return
+			}
+			w := c.fillsBuffer(g, map[*ssa.Function]bool{})
+			c.check(w == "", rule, fname, construct, call.Pos(), "the reader fills the buffer whenever it reports no error",
+				"the reader is asked once and a short count is taken for the end of the data, but "+w+" that may be smaller than the buffer: how much is delivered then depends on how the underlying reader chops the input")
+		})
+	}
+}
+
+// ---- the interpreter core: executeOne and the functions it is split into -----------------------
+
+// execCore is the set of module functions that lie on a static call cycle through executeOne:
+// executeOne itself and every function it calls (directly or through helpers and closures) that calls
+// it back.  When the body of executeOne is split — a wrapper that does the depth accounting and a
+// function that does the dispatch, a helper that runs the error handler — the pieces are exactly
+// these.  Operators are called through function values and are therefore never members.
+type execCore struct {
+	c     *Ctx
+	fn    *ssa.Function // executeOne
+	funcs []*ssa.Function
+	in    map[*ssa.Function]bool
+	sites map[*ssa.Function][]ssa.CallInstruction // static call sites of each module function
+	taken map[*ssa.Function]bool                  // used as a value (callers unknown)
+}
+
+func (c *Ctx) execCoreOf(fn *ssa.Function) *execCore {
+	k := &execCore{c: c, fn: fn, in: map[*ssa.Function]bool{}, sites: map[*ssa.Function][]ssa.CallInstruction{}, taken: map[*ssa.Function]bool{}}
+	succ := map[*ssa.Function][]*ssa.Function{}
+	pred := map[*ssa.Function][]*ssa.Function{}
+	edge := func(a, b *ssa.Function) {
+		succ[a] = append(succ[a], b)
+		pred[b] = append(pred[b], a)
+	}
+	for _, f := range c.modFuncs {
+		f := f
+		eachInstr(f, func(ins ssa.Instruction) {
+			var callee *ssa.Function
+			if call, ok := ins.(ssa.CallInstruction); ok {
+				if g := call.Common().StaticCallee(); g != nil && c.inModule(g) && len(g.Blocks) > 0 {
+					callee = g
+					k.sites[g] = append(k.sites[g], call)
+					edge(f, g)
+				}
+			}
+			for _, op := range ins.Operands(nil) {
+				if *op == nil {
+					continue
+				}
+				switch v := (*op).(type) {
+				case *ssa.Function:
+					if v != callee || !isCalleeOperand(ins, op) {
+						k.taken[v] = true
+						if c.inModule(v) {
+							edge(f, v)
+						}
+					}
+				case *ssa.MakeClosure:
+					if g, ok := v.Fn.(*ssa.Function); ok {
+						k.taken[g] = true
+					}
+				}
+			}
+			if mc, ok := ins.(*ssa.MakeClosure); ok {
+				if g, ok := mc.Fn.(*ssa.Function); ok {
+					k.taken[g] = true
+					edge(f, g)
+				}
+			}
+		})
+	}
+	reach := func(start *ssa.Function, next map[*ssa.Function][]*ssa.Function) map[*ssa.Function]bool {
+		seen := map[*ssa.Function]bool{}
+		st := append([]*ssa.Function{}, next[start]...)
+		for len(st) > 0 {
+			x := st[len(st)-1]
+			st = st[:len(st)-1]
+			if seen[x] {
+				continue
+			}
+			seen[x] = true
+			st = append(st, next[x]...)
+		}
+		return seen
+	}
+	fwd, bwd := reach(fn, succ), reach(fn, pred)
+	k.in[fn] = true
+	k.funcs = append(k.funcs, fn)
+	for _, f := range c.modFuncs {
+		if f != fn && fwd[f] && bwd[f] {
+			k.in[f] = true
+			k.funcs = append(k.funcs, f)
+		}
+	}
+	return k
+}
+
+// isCalleeOperand: op is the function position of the call instruction ins.
+func isCalleeOperand(ins ssa.Instruction, op *ssa.Value) bool {
+	call, ok := ins.(ssa.CallInstruction)
+	return ok && op == &call.Common().Value
+}
+
+// acyclicWithoutEntry: every call cycle among the members passes through executeOne.  Returns a
+// member that lies on a cycle avoiding it, or nil.
+func (k *execCore) cycleAvoidingEntry() *ssa.Function {
+	color := map[*ssa.Function]int{}
+	var bad *ssa.Function
+	var dfs func(f *ssa.Function)
+	dfs = func(f *ssa.Function) {
+		color[f] = 1
+		eachInstr(f, func(ins ssa.Instruction) {
+			call, ok := ins.(ssa.CallInstruction)
+			if !ok || bad != nil {
+				return
+			}
+			g := call.Common().StaticCallee()
+			if g == nil || g == k.fn || !k.in[g] {
+				return
+			}
+			switch color[g] {
+			case 1:
+				bad = g
+			case 0:
+				dfs(g)
+			}
+		})
+		color[f] = 2
+	}
+	for _, f := range k.funcs {
+		if f != k.fn && color[f] == 0 && bad == nil {
+			dfs(f)
+		}
+	}
+	return bad
+}
+
+// callsMember: block b contains a (non-deferred) static call of a member of the core.
+func (k *execCore) callsMember(b *ssa.BasicBlock) bool {
+	for _, ins := range b.Instrs {
+		if call, ok := ins.(ssa.CallInstruction); ok && k.in[call.Common().StaticCallee()] {
+			if _, isDefer := ins.(*ssa.Defer); !isDefer {
+				return true
+			}
+		}
+	}
+	return false
+}
+
+// enteredOnlyAfter: every invocation of h happens after a block satisfying mark was passed — in the
+// frame of the caller before the call, or (recursively) before the caller itself was entered.
+// executeOne is entered from anywhere, a function used as a value from unknown places: never.
+func (k *execCore) enteredOnlyAfter(h *ssa.Function, mark func(*ssa.BasicBlock) bool, visiting map[*ssa.Function]bool) bool {
+	if h == k.fn || k.taken[h] || len(k.sites[h]) == 0 || visiting[h] {
+		return false
+	}
+	visiting[h] = true
+	defer delete(visiting, h)
+	for _, cs := range k.sites[h] {
+		g := cs.Parent()
+		target := cs.Block()
+		q := &pathQuery{fn: g, isTarget: func(b *ssa.BasicBlock) bool { return b == target }, avoid: mark}
+		if !q.search() {
+			continue
+		}
+		if !k.enteredOnlyAfter(g, mark, visiting) {
+			return false
+		}
+	}
+	return true
+}
+
+// siteAfter: instruction site is executed only after mark was passed (see enteredOnlyAfter); inside
+// the function that holds the marking instruction m, dominance by m decides.
+func (k *execCore) siteAfter(site ssa.Instruction, m ssa.Instruction, mark func(*ssa.BasicBlock) bool) bool {
+	if site.Parent() == m.Parent() && dominatesInstr(m, site) {
+		return true
+	}
+	return k.enteredOnlyAfter(site.Parent(), mark, map[*ssa.Function]bool{})
+}
+
+// entryFacts: what is known about the parameters of a member when it is entered although the
+// marked block (the execution-depth gate) has not been passed since executeOne was entered.
+type entryFacts struct {
+	bools map[ssa.Value]bool
+	typs  map[ssa.Value]*typeFact
+}
+
+func (e entryFacts) key() string {
+	s := &pathState{blk: nil, bools: e.bools, typs: e.typs}
+	var parts []string
+	for v, b := range s.bools {
+		parts = append(parts, fmt.Sprintf("%s=%v", v.Name(), b))
+	}
+	for v, tf := range s.typs {
+		p := v.Name() + ":"
+		if tf.is != nil {
+			p += "is " + tf.is.String()
+		}
+		var ex []string
+		for n := range tf.not {
+			ex = append(ex, n)
+		}
+		sort.Strings(ex)
+		parts = append(parts, p+" not "+strings.Join(ex, ","))
+	}
+	sort.Strings(parts)
+	return strings.Join(parts, ";")
+}
+
+// unmarkedEntries: the fact sets with which member h can be entered without the mark having been
+// passed since the enclosing invocation of executeOne began.  executeOne itself: no facts.  Another
+// member: for every call site, every way of reaching the site in the caller (entered unmarked itself)
+// that avoids the mark, with what the path tells about the arguments.  An empty result means h is
+// only ever entered after the mark.
+func (k *execCore) unmarkedEntries(h *ssa.Function, mark func(*ssa.BasicBlock) bool, markStore ssa.Instruction, memo map[*ssa.Function][]entryFacts, visiting map[*ssa.Function]bool) []entryFacts {
+	if r, ok := memo[h]; ok {
+		return r
+	}
+	none := []entryFacts{{bools: map[ssa.Value]bool{}, typs: map[ssa.Value]*typeFact{}}}
+	if h == k.fn || k.taken[h] || len(k.sites[h]) == 0 || visiting[h] {
+		return none
+	}
+	visiting[h] = true
+	defer delete(visiting, h)
+	var out []entryFacts
+	have := map[string]bool{}
+	for _, cs := range k.sites[h] {
+		g := cs.Parent()
+		if !k.in[g] {
+			memo[h] = none
+			return none
+		}
+		cs := cs
+		for _, e := range k.unmarkedEntries(g, mark, markStore, memo, visiting) {
+			q := &pathQuery{fn: g, initBools: e.bools, initTyps: e.typs, avoid: mark}
+			q.isTarget = func(b *ssa.BasicBlock) bool {
+				if b != cs.Block() {
+					return false
+				}
+				// the call follows the mark inside the marked block itself
+				if markStore != nil && markStore.Block() == b && instrIndex(markStore) < instrIndex(cs) {
+					return false
+				}
+				return true
+			}
+			q.each = func(s *pathState) {
+				nf := entryFacts{bools: map[ssa.Value]bool{}, typs: map[ssa.Value]*typeFact{}}
+				args := cs.Common().Args
+				for i, p := range h.Params {
+					if i >= len(args) {
+						break
+					}
+					a := args[i]
+					if b, ok := constBool(a); ok {
+						nf.bools[p] = b
+					} else {
+						av, neg := boolKey(a)
+						for kv, b := range s.bools {
+							if kv == av || origin(kv) == origin(av) {
+								nf.bools[p] = b != neg
+							}
+						}
+					}
+					if tf, ok := s.typs[origin(a)]; ok {
+						nf.typs[p] = tf
+					}
+				}
+				if kk := nf.key(); !have[kk] {
+					have[kk] = true
+					out = append(out, nf)
+				}
+			}
+			q.search()
+		}
+	}
+	memo[h] = out
+	return out
 }
